@@ -119,9 +119,17 @@ class C08(IRProp):
                     on_point = off in case.cfi.get(i, {}) or (off == 0 and i > 0 and case.size(i - 1) in case.cfi.get(i - 1, {})) or \
                         (off == case.size(i) and 0 in case.cfi.get(i + 1, {}))
                     if on_point:
+                        # directives sit exactly on the insertion point (this block's, the end of the previous block or the start of
+                        # the next one: the same place in the listing): either side is a legitimate reading of WHERE the patch lands.
+                        # Whichever it is, a patch that ends up inside a procedure (".. including at its very end") has its own
+                        # directives in effect behind its first instruction
+                        if isinstance(case.mods[n][4], str) and ".cfi_" in case.mods[n][4] and plen > 1:
+                            first = state_at(ev1, 0x1000 + starts[i] + off + delta)
+                            if first != ("outside",) and all(state_at(ev1, 0x1000 + starts[i] + off + delta + j) == first for j in range(1, plen)):
+                                bad.append(dict(what=f"patch inserted at {i}+{off} (where directives sit) is inside a procedure, yet its own CFI directives are "
+                                                     f"not in effect anywhere inside it (state {first} throughout)"))
                         delta += plen
-                        continue            # directives sit exactly on the insertion point (this block's, the end of the previous
-                                            # block or the start of the next one: the same place in the listing): either side is a legitimate reading
+                        continue
                     want_in = state_at(ev0, 0x1000 + begins[i] + off - 1) if off > 0 else state_at(ev0, 0x1000 + begins[i])
                     nxt = state_at(ev0, 0x1000 + begins[i] + off) if off < case.size(i) else want_in
                     own_cfi = isinstance(case.mods[n][4], str) and ".cfi_" in case.mods[n][4]
